@@ -2,7 +2,10 @@
 # tools/sweep.sh <tier> <seed> [props...]: run checks one after the other, log verdict lines.
 tier=$1; seed=$2; shift 2
 props=${@:-C01 C02 C03 C04 C05 C06 C07 C08 C09 C10 C11 C12 C13 C14 C15 C16 C17 C18}
-cd /verif
+cd "$(dirname "$0")/.."
+# own build and evidence directories: a sweep (usually started with `vp run` from a snapshot) must not
+# race with checks run in /verif nor replace its evidence files
+export VCHECK_TARGET=/verif/.target-sweep VCHECK_EVIDENCE_DIR=$PWD/.sweep-evidence
 for p in $props; do
   out=$(./check $p --tier $tier --seed $seed 2>&1); rc=$?
   echo "$(date +%H:%M:%S) $p rc=$rc $(echo "$out" | grep -E '^(HELD|VIOLATION|INCONCLUSIVE|KNOWN)' | head -3 | tr '\n' ' ')"
